@@ -36,7 +36,9 @@ CONSTANTS Crcs,          \* checksums a device may announce
           FLen,          \* abstract file length: cut \in 0..FLen, cut = FLen is a complete file
           Alias,         \* Bug = "suffix": checksums with the same Alias share the short suffix
           Bug,
-          MaxConnect, MaxCrash, MaxEnv
+          MaxConnect, MaxCrash, MaxEnv,
+          MaxOther,      \* stores by ANOTHER cache object (thread / process) sharing a directory
+          OtherTables    \* tables that one stores
 
 P == INSTANCE TocCacheProps
 
@@ -45,7 +47,7 @@ Kinds == {"log", "param"}
 NoDir == "none"
 
 VARIABLES ro, rw,        \* directory roles of the running process ("none" when not configured / no process)
-          files,         \* <<dir, crc>> -> [st: "file"|"garbage"|"falsy", tab, cut]; missing files are not in the domain
+          files,         \* <<dir, crc>> -> [st: "file"|"garbage"|"falsy"|"nontable"|"dir", tab, cut, under]; under = the checksum the content was stored under; missing files are not in the domain
           known,         \* TocCache._cache_files as a sequence of <<dir, crc>>
           stage, kind,   \* where the connection set-up is
           dev,           \* [log |-> [tab, crc], param |-> [tab, crc]]: the connected device
@@ -55,10 +57,12 @@ VARIABLES ro, rw,        \* directory roles of the running process ("none" when 
           fsnap,         \* history: the files (as Props sees them) at the time of the fetch
           obsL, obsP,    \* history: observation of the finished set-up of the log / param table
           roBase,        \* history: content of the ro directory when the process started
-          nconn, ncrash, nenv
+          gone,          \* directories that do not exist (removed after the TocCache object was constructed)
+          other,         \* the store in progress of the other cache object: [x, slot] or NoOther
+          nconn, ncrash, nenv, nother
 
 vars == <<ro, rw, files, known, stage, kind, dev, toc, ret, wdir, fsnap, obsL, obsP, roBase,
-          nconn, ncrash, nenv>>
+          gone, other, nconn, ncrash, nenv, nother>>
 
 EmptyFiles == [x \in {} |-> 0]
 NoRet == [k |-> "none", tab |-> <<>>]
@@ -67,9 +71,13 @@ NoDev == [log |-> [tab |-> <<>>, crc |-> ""], param |-> [tab |-> <<>>, crc |-> "
 NoToc == [log |-> <<>>, param |-> <<>>]
 
 \* what the property module sees of the directories
+\* "foreign" = a complete file whose content was stored under ANOTHER checksum than its name says
 PFiles(f) == [x \in DOMAIN f |->
-                 [st  |-> IF f[x].st = "file" /\ f[x].cut = FLen THEN "complete" ELSE "damaged",
+                 [st  |-> IF f[x].st = "file" /\ f[x].cut = FLen
+                          THEN (IF f[x].under = x[2] THEN "complete" ELSE "foreign") ELSE "damaged",
                   tab |-> f[x].tab]]
+Tmp == "toc.tmp"                 \* Bug = "sharedtmp": one scratch name per directory for every store
+NoOther == [x |-> <<>>, slot |-> <<>>]
 InDir(f, d) == [x \in {y \in DOMAIN f : y[1] = d} |-> f[x]]
 ReadDirs == {ro, rw} \ {NoDir}
 
@@ -78,11 +86,13 @@ Listing(d) == IF d = NoDir THEN <<>>
 Range(s) == {s[i] : i \in DOMAIN s}
 \* order is a possible glob result: the files of r (each once, any order) followed by those of w
 IsListing(order, r, w) ==
-    LET nr == Cardinality({x \in DOMAIN files : x[1] = r})
-        nw == Cardinality({x \in DOMAIN files : x[1] = w})
+    LET fr == {x \in DOMAIN files : x[1] = r /\ x[2] # Tmp}        \* glob('*.json')
+        fw == {x \in DOMAIN files : x[1] = w /\ x[2] # Tmp}
+        nr == Cardinality(fr)
+        nw == Cardinality(fw)
     IN  /\ Len(order) = nr + nw
-        /\ {order[i] : i \in 1..nr} = {x \in DOMAIN files : x[1] = r}
-        /\ {order[i] : i \in (nr + 1)..(nr + nw)} = {x \in DOMAIN files : x[1] = w}
+        /\ {order[i] : i \in 1..nr} = fr
+        /\ {order[i] : i \in (nr + 1)..(nr + nw)} = fw
 
 Init == /\ ro = NoDir /\ rw = NoDir
         /\ files = EmptyFiles
@@ -90,7 +100,8 @@ Init == /\ ro = NoDir /\ rw = NoDir
         /\ stage = "down" /\ kind = "log"
         /\ dev = NoDev /\ toc = NoToc /\ ret = NoRet /\ wdir = NoDir
         /\ fsnap = EmptyFiles /\ obsL = NoObs /\ obsP = NoObs /\ roBase = EmptyFiles
-        /\ nconn = 0 /\ ncrash = 0 /\ nenv = 0
+        /\ gone = {} /\ other = NoOther
+        /\ nconn = 0 /\ ncrash = 0 /\ nenv = 0 /\ nother = 0
 
 \* ---------------------------------------------------------------- process start / stop
 Start(r, w, order) ==
@@ -98,8 +109,10 @@ Start(r, w, order) ==
     /\ r \in Dirs \cup {NoDir} /\ w \in Dirs \cup {NoDir} /\ (r = w => r = NoDir)
     /\ IsListing(order, r, w)
     /\ ro' = r /\ rw' = w /\ known' = order /\ stage' = "idle"
+    /\ gone' = gone \ {w}                            \* os.makedirs(rw_cache) when it does not exist
     /\ roBase' = InDir(files, r)
     /\ UNCHANGED <<files, kind, dev, toc, ret, wdir, fsnap, obsL, obsP, nconn, ncrash, nenv>>
+    /\ UNCHANGED <<other, nother>>
 
 Down == /\ ro' = NoDir /\ rw' = NoDir /\ known' = <<>> /\ stage' = "down" /\ kind' = "log"
         /\ dev' = NoDev /\ toc' = NoToc /\ ret' = NoRet /\ wdir' = NoDir
@@ -107,23 +120,30 @@ Down == /\ ro' = NoDir /\ rw' = NoDir /\ known' = <<>> /\ stage' = "down" /\ kin
 
 Exit == /\ stage = "idle" /\ Down
         /\ UNCHANGED <<files, nconn, ncrash, nenv>>
+    /\ UNCHANGED <<gone, other, nother>>
 
 Crash == /\ stage \notin {"down", "idle"} /\ ncrash < MaxCrash /\ Down
          /\ ncrash' = ncrash + 1
          /\ UNCHANGED <<files, nconn, nenv>>
+    /\ UNCHANGED <<gone, other, nother>>
 
 \* ---------------------------------------------------------------- connection set-up
 Connect(lt, lc, pt, pc) ==
     /\ stage = "idle" /\ nconn < MaxConnect
+    /\ (other # NoOther => other.x[2] \notin {lc, pc})
     /\ dev' = [log |-> [tab |-> lt, crc |-> lc], param |-> [tab |-> pt, crc |-> pc]]
     /\ stage' = "fetch" /\ kind' = "log" /\ toc' = NoToc /\ ret' = NoRet
     /\ obsL' = NoObs /\ obsP' = NoObs /\ fsnap' = EmptyFiles
     /\ nconn' = nconn + 1
     /\ UNCHANGED <<ro, rw, files, known, wdir, roBase, ncrash, nenv>>
+    /\ UNCHANGED <<gone, other, nother>>
 
 Crc == dev[kind].crc
 
 Falsy == [k |-> "falsy", tab |-> <<>>]             \* fetch returns a value that `if (cache_data)` rejects
+\* what a truthy JSON document that is not a table looks like to the observer
+Junk == << [kg |-> "x", kn |-> "x", ident |-> "x", group |-> "x", name |-> "x", ctype |-> "x",
+            pytype |-> "x", access |-> "x", ext |-> "x"] >>
 Raise == [k |-> "raise", tab |-> <<>>]
 Err == IF Bug = "escape" THEN Raise ELSE NoRet
 \* a listed name that no longer exists: open() raises inside the try -> miss.  Bug = "toctou": the file is
@@ -135,6 +155,8 @@ Load(x) ==
     ELSE LET f == files[x] IN
          IF f.st = "file" /\ f.cut = FLen
          THEN IF f.tab = <<>> THEN Falsy ELSE [k |-> "tab", tab |-> Decode(f.tab)]
+         ELSE IF f.st = "nontable" /\ Bug = "nontable"
+              THEN [k |-> "tab", tab |-> Junk]          \* the decoded non-table value is returned: a "hit"
          ELSE IF f.st = "falsy" THEN Falsy           \* valid JSON such as {} [] 0 null: decoded, but nothing
          ELSE IF Bug = "partial" /\ f.st = "file" /\ f.cut > 0 /\ Len(f.tab) > 1
               THEN [k |-> "tab", tab |-> SubSeq(f.tab, 1, Len(f.tab) - 1)]
@@ -158,6 +180,7 @@ Fetch ==
                               files |-> PFiles(files)])
               ELSE stage' = "fetched" /\ UNCHANGED <<obsL, obsP>>
     /\ UNCHANGED <<ro, rw, files, known, kind, dev, toc, wdir, roBase, nconn, ncrash, nenv>>
+    /\ UNCHANGED <<gone, other, nother>>
 
 Truthy(r) == r.k = "tab"                            \* `if (cache_data)`: an empty table ({}) is a miss
 
@@ -177,6 +200,7 @@ DoneUsed ==
                files |-> fsnap])
     /\ Advance(ret.tab)
     /\ UNCHANGED <<ro, rw, files, known, dev, ret, wdir, fsnap, roBase, nconn, ncrash, nenv>>
+    /\ UNCHANGED <<gone, other, nother>>
 
 Download ==
     /\ stage = "fetched" /\ ~Truthy(ret)
@@ -184,34 +208,68 @@ Download ==
     /\ stage' = "insert"
     /\ UNCHANGED <<ro, rw, files, known, kind, dev, ret, wdir, fsnap, obsL, obsP, roBase,
                    nconn, ncrash, nenv>>
+    /\ UNCHANGED <<gone, other, nother>>
 
 Target == IF rw # NoDir THEN rw ELSE IF Bug = "rowrite" THEN ro ELSE NoDir
 
+\* where the bytes of the store in progress go, and whether open() of that name fails
+WSlot(d) == IF Bug = "sharedtmp" THEN <<d, Tmp>> ELSE <<d, Crc>>
+OpenFails(d) == d \in gone \/ (WSlot(d) \in DOMAIN files /\ files[WSlot(d)].st = "dir")
+
 InsertBegin ==
-    /\ stage = "insert" /\ Target # NoDir
+    /\ stage = "insert" /\ Target # NoDir /\ ~OpenFails(Target)
     /\ wdir' = Target
-    /\ files' = (<<Target, Crc>> :> [st |-> "file", tab |-> toc[kind], cut |-> 0]) @@ files
+    /\ files' = (WSlot(Target) :> [st |-> "file", tab |-> toc[kind], cut |-> 0, under |-> Crc]) @@ files
     /\ stage' = "write"
     /\ UNCHANGED <<ro, rw, known, kind, dev, toc, ret, fsnap, obsL, obsP, roBase, nconn, ncrash, nenv>>
+    /\ UNCHANGED <<gone, other, nother>>
+
+\* open() raises (directory gone, name taken by a directory): caught, logged, nothing stored.
+\* Bug = "openfail": the clean-up after the failed open raises again and leaves insert()
+InsertFail ==
+    /\ stage = "insert" /\ Target # NoDir /\ OpenFails(Target)
+    /\ IF Bug = "openfail"
+       THEN /\ stage' = "failed"
+            /\ SetObs([valid |-> TRUE,
+                       o |-> [crc |-> Crc, dirs |-> ReadDirs, used |-> FALSE, raised |-> FALSE,
+                              downloaded |-> TRUE, done |-> FALSE, got |-> toc[kind], dev |-> dev[kind].tab],
+                       files |-> fsnap])
+       ELSE stage' = "next" /\ UNCHANGED <<obsL, obsP>>
+    /\ UNCHANGED <<ro, rw, files, known, kind, dev, toc, ret, wdir, fsnap, roBase, nconn, ncrash, nenv>>
+    /\ UNCHANGED <<gone, other, nother>>
 
 NoInsert ==
     /\ stage = "insert" /\ Target = NoDir
     /\ stage' = "next"
     /\ UNCHANGED <<ro, rw, files, known, kind, dev, toc, ret, wdir, fsnap, obsL, obsP, roBase,
                    nconn, ncrash, nenv>>
+    /\ UNCHANGED <<gone, other, nother>>
 
+\* the content of the slot is still ours (under sharedtmp the other store may have replaced or taken it)
+Mine(d) == WSlot(d) \in DOMAIN files /\ files[WSlot(d)].st = "file" /\ files[WSlot(d)].under = Crc
+                                     /\ files[WSlot(d)].tab = toc[kind]
 WriteByte ==
-    /\ stage = "write" /\ files[<<wdir, Crc>>].cut < FLen
-    /\ files' = [files EXCEPT ![<<wdir, Crc>>].cut = @ + 1]
+    /\ stage = "write" /\ Mine(wdir) /\ files[WSlot(wdir)].cut < FLen
+    /\ files' = [files EXCEPT ![WSlot(wdir)].cut = @ + 1]
     /\ UNCHANGED <<ro, rw, known, stage, kind, dev, toc, ret, wdir, fsnap, obsL, obsP, roBase,
                    nconn, ncrash, nenv>>
+    /\ UNCHANGED <<gone, other, nother>>
 
+\* close(); (sharedtmp: os.replace(scratch, name) -- of whatever the scratch name holds now);
+\* _cache_files += [name].  A failing replace is caught: nothing appended.
 InsertEnd ==
-    /\ stage = "write" /\ files[<<wdir, Crc>>].cut = FLen
-    /\ known' = Append(known, <<wdir, Crc>>)
+    /\ stage = "write" /\ (~Mine(wdir) \/ files[WSlot(wdir)].cut = FLen)
+    /\ IF Bug = "sharedtmp"
+       THEN IF WSlot(wdir) \in DOMAIN files
+            THEN /\ files' = (<<wdir, Crc>> :> files[WSlot(wdir)]) @@
+                                [y \in DOMAIN files \ {WSlot(wdir)} |-> files[y]]
+                 /\ known' = Append(known, <<wdir, Crc>>)
+            ELSE UNCHANGED <<files, known>>
+       ELSE /\ known' = Append(known, <<wdir, Crc>>) /\ UNCHANGED files
     /\ stage' = "next"
-    /\ UNCHANGED <<ro, rw, files, kind, dev, toc, ret, wdir, fsnap, obsL, obsP, roBase,
+    /\ UNCHANGED <<ro, rw, kind, dev, toc, ret, wdir, fsnap, obsL, obsP, roBase,
                    nconn, ncrash, nenv>>
+    /\ UNCHANGED <<gone, other, nother>>
 
 DoneDl ==
     /\ stage = "next"
@@ -221,12 +279,14 @@ DoneDl ==
                files |-> fsnap])
     /\ Advance(toc[kind])
     /\ UNCHANGED <<ro, rw, files, known, dev, toc, ret, wdir, fsnap, roBase, nconn, ncrash, nenv>>
+    /\ UNCHANGED <<gone, other, nother>>
 
 Close ==
     /\ stage \in {"connected", "failed"}
     /\ stage' = "idle" /\ kind' = "log" /\ dev' = NoDev /\ toc' = NoToc /\ ret' = NoRet
     /\ wdir' = NoDir /\ fsnap' = EmptyFiles /\ obsL' = NoObs /\ obsP' = NoObs
     /\ UNCHANGED <<ro, rw, files, known, roBase, nconn, ncrash, nenv>>
+    /\ UNCHANGED <<gone, other, nother>>
 
 \* ---------------------------------------------------------------- environment between processes
 \* The environment touches the cache files not only between processes but also within the life of one
@@ -239,11 +299,12 @@ EnvStages == {"down", "idle", "fetch"}
 Corrupt(x, flavour) ==
     /\ stage \in EnvStages /\ nenv < MaxEnv
     /\ x \in DOMAIN files /\ files[x].st = "file" /\ files[x].cut = FLen
-    /\ flavour \in {"garbage", "falsy"}
-    /\ files' = [files EXCEPT ![x] = [st |-> flavour, tab |-> <<>>, cut |-> 0]]
+    /\ flavour \in {"garbage", "falsy", "nontable"}
+    /\ files' = [files EXCEPT ![x] = [st |-> flavour, tab |-> <<>>, cut |-> 0, under |-> ""]]
     /\ nenv' = nenv + 1
     /\ roBase' = InDir(files', ro)                   \* not a write of the cache: the comparison base moves along
     /\ UNCHANGED <<ro, rw, known, stage, kind, dev, toc, ret, wdir, fsnap, obsL, obsP, nconn, ncrash>>
+    /\ UNCHANGED <<gone, other, nother>>
 
 Remove(x) ==
     /\ stage \in EnvStages /\ nenv < MaxEnv
@@ -252,6 +313,7 @@ Remove(x) ==
     /\ nenv' = nenv + 1
     /\ roBase' = InDir(files', ro)                   \* not a write of the cache: the comparison base moves along
     /\ UNCHANGED <<ro, rw, known, stage, kind, dev, toc, ret, wdir, fsnap, obsL, obsP, nconn, ncrash>>
+    /\ UNCHANGED <<gone, other, nother>>
 
 \* a complete file cut short from outside (same state as a crash during its write)
 Truncate(x, k) ==
@@ -261,21 +323,81 @@ Truncate(x, k) ==
     /\ nenv' = nenv + 1
     /\ roBase' = InDir(files', ro)                   \* not a write of the cache: the comparison base moves along
     /\ UNCHANGED <<ro, rw, known, stage, kind, dev, toc, ret, wdir, fsnap, obsL, obsP, nconn, ncrash>>
+    /\ UNCHANGED <<gone, other, nother>>
 
 \* a cache file is copied into the other directory (a distributed, pre-populated cache)
 Copy(x, d) ==
     /\ stage \in EnvStages /\ nenv < MaxEnv
-    /\ x \in DOMAIN files /\ d \in Dirs /\ d # x[1]
+    /\ x \in DOMAIN files /\ d \in Dirs /\ d # x[1] /\ files[x].st # "dir"
+    /\ (<<d, x[2]>> \in DOMAIN files => files[<<d, x[2]>>].st # "dir")
     /\ files' = (<<d, x[2]>> :> files[x]) @@ files
+    /\ gone' = gone \ {d}
     /\ nenv' = nenv + 1
     /\ roBase' = InDir(files', ro)                   \* not a write of the cache: the comparison base moves along
     /\ UNCHANGED <<ro, rw, known, stage, kind, dev, toc, ret, wdir, fsnap, obsL, obsP, nconn, ncrash>>
+    /\ UNCHANGED <<other, nother>>
+
+\* the whole directory disappears (cleaned away) -- a living TocCache object does not recreate it
+RemoveDir(d) ==
+    /\ stage \in EnvStages /\ nenv < MaxEnv /\ d \in Dirs \ gone
+    /\ (other # NoOther => other.x[1] # d)
+    /\ files' = [y \in {z \in DOMAIN files : z[1] # d} |-> files[y]]
+    /\ gone' = gone \cup {d}
+    /\ nenv' = nenv + 1
+    /\ roBase' = InDir(files', ro)
+    /\ UNCHANGED <<ro, rw, known, stage, kind, dev, toc, ret, wdir, fsnap, obsL, obsP, nconn, ncrash>>
+    /\ UNCHANGED <<other, nother>>
+
+\* the name of a cache file is taken by a directory: it cannot be read, and open(name, 'w') raises
+BlockName(x) ==
+    /\ stage \in EnvStages /\ nenv < MaxEnv /\ x[1] \in Dirs \ gone /\ x[2] # Tmp
+    /\ (other # NoOther => other.x # x)
+    /\ files' = (x :> [st |-> "dir", tab |-> <<>>, cut |-> 0, under |-> ""]) @@ files
+    /\ nenv' = nenv + 1
+    /\ roBase' = InDir(files', ro)
+    /\ UNCHANGED <<ro, rw, known, stage, kind, dev, toc, ret, wdir, fsnap, obsL, obsP, nconn, ncrash>>
+    /\ UNCHANGED <<gone, other, nother>>
+
+\* ---------------------------------------------------------------- another cache object on the same directory
+\* (a second Crazyflie of a swarm in its own thread, or another client process): it stores table t under
+\* checksum x[2] in directory x[1] -- never our read-only directory, never a checksum of our connection --
+\* in the same three steps as we do, interleaved with ours at any point.
+CurCrcs == IF stage \in {"down", "idle"} THEN {} ELSE {dev["log"].crc, dev["param"].crc}
+OSlot(x) == IF Bug = "sharedtmp" THEN <<x[1], Tmp>> ELSE x
+OtherBegin(x, t) ==
+    /\ stage # "down" /\ nother < MaxOther /\ other = NoOther
+    /\ x[1] \in Dirs \ gone /\ x[1] # ro /\ x[2] \notin CurCrcs /\ x[2] # Tmp
+    /\ (OSlot(x) \in DOMAIN files => files[OSlot(x)].st # "dir")
+    /\ files' = (OSlot(x) :> [st |-> "file", tab |-> t, cut |-> 0, under |-> x[2]]) @@ files
+    /\ other' = [x |-> x, slot |-> OSlot(x)]
+    /\ nother' = nother + 1
+    /\ UNCHANGED <<ro, rw, known, stage, kind, dev, toc, ret, wdir, fsnap, obsL, obsP, roBase,
+                   nconn, ncrash, nenv, gone>>
+
+Theirs == other.slot \in DOMAIN files /\ files[other.slot].st = "file" /\ files[other.slot].under = other.x[2]
+OtherWrite ==
+    /\ other # NoOther /\ Theirs /\ files[other.slot].cut < FLen
+    /\ files' = [files EXCEPT ![other.slot].cut = @ + 1]
+    /\ UNCHANGED <<ro, rw, known, stage, kind, dev, toc, ret, wdir, fsnap, obsL, obsP, roBase,
+                   nconn, ncrash, nenv, other, nother, gone>>
+
+OtherEnd ==
+    /\ other # NoOther /\ (~Theirs \/ files[other.slot].cut = FLen)
+    /\ IF Bug = "sharedtmp" /\ other.slot \in DOMAIN files
+       THEN files' = (other.x :> files[other.slot]) @@ [y \in DOMAIN files \ {other.slot} |-> files[y]]
+       ELSE UNCHANGED files
+    /\ other' = NoOther
+    /\ UNCHANGED <<ro, rw, known, stage, kind, dev, toc, ret, wdir, fsnap, obsL, obsP, roBase,
+                   nconn, ncrash, nenv, nother>>
+    /\ UNCHANGED <<gone>>
 
 Next == \/ \E r, w \in Dirs \cup {NoDir} : Start(r, w, Listing(r) \o Listing(w))
         \/ \E lt \in LogTables, pt \in ParamTables, lc, pc \in Crcs : Connect(lt, lc, pt, pc)
-        \/ Fetch \/ DoneUsed \/ Download \/ InsertBegin \/ NoInsert \/ WriteByte \/ InsertEnd \/ DoneDl
+        \/ Fetch \/ DoneUsed \/ Download \/ InsertBegin \/ InsertFail \/ NoInsert \/ WriteByte \/ InsertEnd \/ DoneDl
+        \/ (\E x \in Dirs \X Crcs, tt \in OtherTables : OtherBegin(x, tt)) \/ OtherWrite \/ OtherEnd
+        \/ (\E d \in Dirs : RemoveDir(d)) \/ (\E x \in Dirs \X Crcs : BlockName(x))
         \/ Close \/ Exit \/ Crash
-        \/ \E x \in Dirs \X Crcs : (\E fl \in {"garbage", "falsy"} : Corrupt(x, fl)) \/ Remove(x) \/ (\E d \in Dirs : Copy(x, d))
+        \/ \E x \in Dirs \X Crcs : (\E fl \in {"garbage", "falsy", "nontable"} : Corrupt(x, fl)) \/ Remove(x) \/ (\E d \in Dirs : Copy(x, d))
                                    \/ (\E k \in 0..(FLen - 1) : Truncate(x, k))
 
 Spec == Init /\ [][Next]_vars
@@ -293,8 +415,9 @@ RoNeverWritten == stage # "down" => P!RoClause(roBase, InDir(files, ro)) = "ok"
 TypeOK == /\ stage \in {"down", "idle", "fetch", "fetched", "insert", "write", "next", "connected", "failed"}
           /\ kind \in Kinds
           /\ ro \in Dirs \cup {NoDir} /\ rw \in Dirs \cup {NoDir}
-          /\ \A x \in DOMAIN files : files[x].cut \in 0..FLen /\ files[x].st \in {"file", "garbage", "falsy"}
-          /\ nconn \in 0..MaxConnect /\ ncrash \in 0..MaxCrash /\ nenv \in 0..MaxEnv
+          /\ \A x \in DOMAIN files : files[x].cut \in 0..FLen /\ files[x].st \in {"file", "garbage", "falsy", "nontable", "dir"}
+          /\ nconn \in 0..MaxConnect /\ ncrash \in 0..MaxCrash /\ nenv \in 0..MaxEnv /\ nother \in 0..MaxOther
+          /\ gone \subseteq Dirs
 \* the code only ever lists files of its own directories
 KnownInDirs == \A i \in DOMAIN known : known[i][1] \in ReadDirs
 =============================================================================
